@@ -67,6 +67,11 @@ def _payload(pid, cfg, capsule, op, rng_state, rest_ops, budget, run_seed):
 
 def _resume(payload):
     """Runs on the far side.  -> plain result dict"""
+    if "rpc" in payload:
+        import importlib
+
+        mod, fn = payload["rpc"].split(":")
+        return getattr(importlib.import_module(mod), fn)(payload)
     from egsim import engine
 
     prop = engine.get_property(payload["pid"])
@@ -264,3 +269,18 @@ def _zygote_call(payload):
     if "harness_error" in out:
         raise egsim.HarnessError("zygote child: " + out["harness_error"])
     return out
+
+
+def call_rpc(mode, target, payload, hashseed=0):
+    """
+    Run `module:function(payload)` on the far side of a process boundary
+    (mode: inproc | zygote | exec) and return its JSON-able result.
+    """
+    payload = dict(payload)
+    payload["rpc"] = target
+    payload.setdefault("op", {"hashseed": hashseed})
+    if mode == "inproc":
+        return _resume(payload)
+    if mode == "zygote":
+        return _zygote_call(payload)
+    return _exec_call(payload, hashseed)
